@@ -679,6 +679,9 @@ class _Generator(Generator):
     def is_buffer_type(self, type_):
         return isinstance(type_, uper.OctetString)
 
+    def is_fixed_size_buffer_type(self, type_):
+        return type_.minimum == type_.maximum
+
     def generate_helpers(self, definitions):
         helpers = []
 
